@@ -513,6 +513,8 @@ class StmtMixin:
         exits = []
         for item in node.items:
             mgr = self.ev(item.context_expr)
+            if isinstance(mgr, SOpt):
+                mgr = self.force(mgr, 'context manager')      # `with None:` raises
             self.enter_with(mgr, item)
             decl = self.world.classes.get(mgr.shape.cls) if isinstance(mgr, SRef) else None
             if decl is not None and 'with_enter' in decl.methods:
